@@ -362,7 +362,7 @@ Section PhaseSound.
 
   (* every value of the statement has been accepted by the checker when the argument phase succeeds *)
   Theorem phase_sound_of : forall f c b,
-    sig_ok f = true -> recv_known f c -> twin_binding f c = Ok b -> top_aligned f c ->
+    sig_full f = true -> recv_known f c -> twin_binding f c = Ok b -> top_aligned f c ->
     phase_sound pc check consumes f c b.
   Proof.
     intros f c b Hsig Hrk Hb Htop inst st' Hargs oa v Hin.
@@ -370,7 +370,7 @@ Section PhaseSound.
     destruct (run_pass pc check consumes f c inst PNamed astate0) as [st1|e] eqn:E1; [|discriminate]. cbn [Exn.bind] in Hargs.
     destruct (run_pass pc check consumes f c inst PVarPos st1) as [st2|e] eqn:E2; [|discriminate]. cbn [Exn.bind] in Hargs.
     unfold run_pass in E1, E2, Hargs.
-    pose proof Hsig as Hs0. unfold sig_ok in Hs0. apply andb_true_iff in Hs0 as [Hbase Hstar].
+    pose proof Hsig as Hs0. unfold sig_full in Hs0. apply andb_true_iff in Hs0 as [Hbase Hstar].
     pose proof Hbase as Hs1. unfold sig_base in Hs1. repeat (apply andb_true_iff in Hs1; destruct Hs1 as [Hs1 ?]).
     rename Hs1 into Hone1, H into Hbound, H0 into Hnoself, H1 into Hdist, H2 into Hone2.
     apply Nat.leb_le in Hone1. apply Nat.leb_le in Hone2.
@@ -534,7 +534,7 @@ Section Guards.
   Qed.
 
   Lemma sound_or_rejected : forall f c b,
-    sig_ok f = true -> recv_fine f c -> twin_binding f c = Ok b -> not_stripped f c ->
+    sig_full f = true -> recv_fine f c -> twin_binding f c = Ok b -> not_stripped f c ->
     phase_sound pc check consumes f c b \/ assert_uses_kwargs pc f c = Raise PCallWithArgsC.
   Proof.
     intros f c b Hsig Hrf Hb Hns.
@@ -553,7 +553,7 @@ Section Guards.
   (* C03, first sentence, for every value of the statement - by keyword, by default, *args element, **kwargs value, positional value
      of a named parameter *)
   Theorem guard : forall f c bd b a v,
-    sig_ok f = true -> recv_fine f c -> twin_binding f c = Ok b -> not_stripped f c ->
+    sig_full f = true -> recv_fine f c -> twin_binding f c = Ok b -> not_stripped f c ->
     In (Some a, v) (all_values f c b) -> rejected check a v ->
     snd (run pc check consumes f c bd) = [] /\ exists e, fst (run pc check consumes f c bd) = Raise e.
   Proof.
@@ -564,7 +564,7 @@ Section Guards.
   Qed.
 
   Theorem guard_gen : forall f c b a v,
-    sig_ok f = true -> recv_fine f c -> twin_binding f c = Ok b -> not_stripped f c ->
+    sig_full f = true -> recv_fine f c -> twin_binding f c = Ok b -> not_stripped f c ->
     In (Some a, v) (all_values f c b) -> rejected check a v ->
     snd (run_gen pc check consumes f c) = [] /\ exists e, fst (run_gen pc check consumes f c) = Raise e.
   Proof.
@@ -575,7 +575,7 @@ Section Guards.
   Qed.
 
   Theorem guard_exact : forall f c bd b a v,
-    sig_ok f = true -> recv_fine f c -> twin_binding f c = Ok b -> not_stripped f c ->
+    sig_full f = true -> recv_fine f c -> twin_binding f c = Ok b -> not_stripped f c ->
     In (Some a, v) (all_values f c b) -> rejected check a v ->
     (is_instance_method f = true -> wargs c <> []) ->
     assert_uses_kwargs pc f c = Ok tt ->
